@@ -221,6 +221,24 @@ def check(chk):
         g = ecfg.guards_at(n.id)
         chk.ob("DELTA-1", "the loss after an eject is reported only when the recount is below the expected count", g.get("new_balls < old_balls") is True or g.get("old_balls > new_balls") is True,
                ej.where(c), detail=str(sorted(g.items())), construct=ej.ident, text="double-eject loss condition")
+    # a switch counter whose count is unreliable (a ball switch was active when the eject began: the stack may still settle) does not guess:
+    # the ball-left timer lowers the count exactly when the count is reliable; otherwise only the recount decides
+    SCF = "mpf/devices/ball_device/switch_counter.py"
+    bl = repo.func(SCF, "SwitchCounter._ball_left")
+    chk.analysed(bl)
+    bcfg = bl.cfg()
+    decs = [n for n in bcfg.nodes if n.kind == "stmt" and isinstance(n.ast, ast.AugAssign) and src(n.ast.target) == "self._last_count" and isinstance(n.ast.op, ast.Sub)]
+    chk.need(decs, "DELTA-1", "SwitchCounter._ball_left lowers the count when the ball has left", bl)
+    from sa.cfg import canon_set as _csb, canon_fact as _cfb
+    from sa.helpers import positive as _posb
+    for n in decs:
+        got = _posb(set(_csb(bcfg.guards_at(n.id))))
+        want = _posb({_cfb("self._is_unreliable", False), _cfb("future.cancelled()", False)})
+        chk.ob("DELTA-1", "the ball-left timer lowers the switch counter's count exactly when the count is reliable", got == want, bl.where(n.ast),
+               detail="lowered under %s" % sorted(got), construct=bl.ident, text="ball left decrement condition")
+    rc_ = [n.id for n, c in bcfg.calls_named("trigger_recount")]
+    w_ = bcfg.path_avoiding(bcfg.entry.id, [bcfg.exit.id], rc_ + [b.id for b in bcfg.nodes if b.kind == "branch" and src(b.ast) == "future.cancelled()" and b.value is True], ignore_exc=True) if rc_ else [0]
+    chk.ob("DELTA-1", "every ball-left timer that was not cancelled asks for a recount", w_ is None, bl.where(), construct=bl.ident, text="ball left recount")
     # hold-coil devices: a release in progress suspends holding (hold() returns early while the flag is set); the release's completion
     # always ends that state - also when the device ran empty - or the coil is never energised again and the next ball that is counted in
     # rolls straight out (count 1, device physically empty)
@@ -651,6 +669,7 @@ def _entrance_windows_per_switch(chk, repo):
 def battery():
     from sa.battery import M
     return [
+        M("ball-left timer lowers an unreliable count too", "mpf/devices/ball_device/switch_counter.py", "        if not self._is_unreliable:\n            # only do this is count it reliable\n            self._last_count -= 1\n            self.record_activity(BallLostActivity())", "        self._last_count -= 1\n        self.record_activity(BallLostActivity())", "DELTA-1"),
         M("entrance during an eject not counted when the device looks full", "mpf/devices/ball_device/ball_count_handler.py", "        await self.ball_device.incoming_balls_handler.ball_arrived()\n        self._set_ball_count(self._ball_count + 1)", "        await self.ball_device.incoming_balls_handler.ball_arrived()\n        if not self.is_full:\n            self._set_ball_count(self._ball_count + 1)", "DELTA-1"),
         M("release state kept when the hold device ran empty", "mpf/devices/ball_device/hold_coil_ejector.py", "        self.hold_release_in_progress = False\n        self.ball_device.log.debug(\"No more balls. Hold coil will stay disabled.\")\n\n        # reenable hold coil if there are balls left\n        if self.ball_device.balls > 0:\n            self._enable_hold_coil()", "        if self.ball_device.balls > 0:\n            self.hold_release_in_progress = False\n            self._enable_hold_coil()", "HOLD-4"),
         M("count-stable timer cancelled under another name", "mpf/devices/ball_device/entrance_switch_counter.py", "            self._settle_delay.remove(\"count_stable\")", "            self._settle_delay.remove(\"settle\")", "NAME-0"),
